@@ -91,6 +91,11 @@ func vhExArg(sel int) any {
 	case 13:
 		var np *Stack
 		return np
+	case 14: // a Stack by another name is a Stack where no-nesting decides
+		return vhAliasStack(Or().Push("s1", "s2"))
+	case 15:
+		a := vhAliasStack(And().Push("p1"))
+		return &a
 	}
 	return true
 }
@@ -164,6 +169,10 @@ func vhExText(ex any) string {
 		return x.String()
 	case vhAliasCond:
 		return Condition(x).String()
+	case vhAliasStack:
+		return Stack(x).String()
+	case *vhAliasStack:
+		return Stack(*x).String()
 	case *vhStringer, *Stack:
 		return vhNoGrammar // how a typed nil renders is not specified; it must not panic
 	}
@@ -276,7 +285,7 @@ func VH_C06_Step(p []int) {
 			m.op = op
 		}
 	case 2:
-		ex := vhExArg(nondetChoice(14))
+		ex := vhExArg(nondetChoice(16))
 		c.SetExpression(ex)
 		if vhExAcceptable(ex, noNest, hasErr) {
 			m.ex = ex
@@ -297,7 +306,7 @@ func VH_C06_Hist(p []int) {
 			kw = "kw"
 		}
 		op := vhOpArg(nondetChoice(10))
-		ex := vhExArg(nondetChoice(14))
+		ex := vhExArg(nondetChoice(16))
 		c = Cond(kw, op, ex)
 		m.kw = kw
 		if vhOpAcceptable(op) {
@@ -334,7 +343,7 @@ func VH_C06_Hist(p []int) {
 				m.op = op
 			}
 		case 2:
-			ex := vhExArg(nondetChoice(14))
+			ex := vhExArg(nondetChoice(16))
 			c.SetExpression(ex)
 			if vhExAcceptable(ex, noNest, false) {
 				m.ex = ex
